@@ -1,6 +1,6 @@
 """C05: substring, prefix, postfix, exact decide the documented relations."""
 import mcommon
-from mcommon import prepare, replay  # noqa
+from mcommon import prepare  # noqa
 
 TRUSTED = ["memchr / memmem modelled by their specification (all occurrence positions, ascending)"]
 ASSUMPTIONS = ["needles already normalised",
@@ -41,8 +41,15 @@ def run(ctx, broken):
     lines = [l for l in mcommon.base_lines(ctx) if l.split(" ")[1] in "SPOE"]
     if ctx["tier"] == "thorough":
         lines += mcommon.exhaustive_lines(ctx, "SPOE", "c05")
-    return mcommon.generic_run(ctx, lines, view, clauses,
-                               "contiguous-slice stream (occurrences at the start / end / middle, leading and trailing whitespace of 8 kinds, needles starting with several non-letters, overlapping occurrences) plus the general streams; compared: (decision, start index); oracle: spec_substring_pos / spec_prefix / spec_postfix / spec_exact from Spec/Matching.v. Non-trivial = distinct case with non-empty strings.", tag="c05")
+    res = mcommon.generic_run(ctx, lines, view, clauses,
+                               "contiguous-slice stream (occurrences at the start / end / middle, leading and trailing whitespace of 8 kinds, needles starting with several non-letters, overlapping occurrences) plus the general streams; compared: (decision, start index); oracle: spec_substring_pos / spec_prefix / spec_postfix / spec_exact from Spec/Matching.v. Non-trivial = distinct case with non-empty strings. "
+                               "Atom level (the substring / prefix / postfix / exact atoms reach these algorithms through Atom::score and Atom::indices, which set the matcher's flags themselves): a reduced run of the C15 stream; its atom_indices / panic clauses on atoms of these four kinds (Atom::indices decides like Atom::score on a Matcher with left-over flags) count for this property.", tag="c05")
+    import c15
+    fs, ev = c15.subset_failures(ctx, {"atom_indices", "panic"}, 2500)
+    fs = [f for f in fs if any(k in (f.get("what") or "") for k in ("Substring(", "Prefix(", "Postfix(", "Exact("))]
+    res["failures"] += [dict(f, cls_origin="C15 stream") for f in fs]
+    res["evaluations"] += ev
+    return res
 
 
 def known(f, kf):
@@ -53,3 +60,12 @@ def known(f, kf):
                 if k["id"] == "K1":
                     return k
     return None
+
+
+def replay(path):
+    import json
+    f = (json.load(open(path)).get("failure") or {})
+    if f.get("cls_origin") == "C15 stream":
+        import c15
+        return c15.replay(path)
+    return mcommon.replay(path)
